@@ -248,13 +248,14 @@ Theorem C13_site_total :
 Proof. exact site_total. Qed.
 Print Assumptions C13_site_total.
 
-(* non-vacuity / concrete shapes *)
+(* non-vacuity / concrete shapes, stated relative to the regenerated limits *)
 Example C13_nonvacuous :
-  write_event_cur (repeat 97%N 4095 ++ [195%N; 169%N]) = None /\
-  write_event_fixed (repeat 97%N 4095 ++ [195%N; 169%N]) = Some (repeat 97%N 4095) /\
-  write_event_cur (repeat 97%N 4094 ++ [195%N; 169%N; 98%N]) = Some (repeat 97%N 4094 ++ [195%N; 169%N]) /\
-  get_module_status_cur (repeat 97%N 1023 ++ [195%N; 169%N]) = None /\
-  get_module_status_fixed (repeat 97%N 1023 ++ [195%N; 169%N]) = Some (repeat 97%N 1023 ++ [46%N; 46%N; 46%N]) /\
+  let a := fun n => repeat 97%N n in
+  write_event_cur (a (MAXM - 1) ++ [195%N; 169%N]) = None /\
+  write_event_fixed (a (MAXM - 1) ++ [195%N; 169%N]) = Some (a (MAXM - 1)) /\
+  write_event_cur (a (MAXM - 2) ++ [195%N; 169%N; 98%N]) = Some (a (MAXM - 2) ++ [195%N; 169%N]) /\
+  get_module_status_cur (a (MAXS - 1) ++ [195%N; 169%N]) = None /\
+  get_module_status_fixed (a (MAXS - 1) ++ [195%N; 169%N]) = Some (a (MAXS - 1) ++ [46%N; 46%N; 46%N]) /\
   canon_headers_cur [([120%N], [128%N])] = None /\
   canon_headers_fixed [([88%N], [128%N])] = Some [([120%N], [239%N; 191%N; 189%N])] /\
   canon_headers_fixed [([88%N], [195%N; 169%N])] = Some [([120%N], [195%N; 169%N])].
